@@ -320,11 +320,11 @@ func (v serviceView) topicStates(pattern string, min int) map[string]alert.Topic
 const (
 	// Service.DeleteTopic removes the running topic together with the registrations of its handler specs, but
 	// keeps the specs: they are still listed and stored, yet receive nothing until the daemon restarts.
-	openDeleteWithSpecs = true
+	openDeleteWithSpecs = false // repaired in /repo by a fix: commit
 	sigDeadAfterDelete  = "service/handler-spec-dead-after-delete-topic"
 	// UpdateHandlerSpec onto the id of another handler of the topic overwrites that handler's spec but leaves
 	// its handler registered: unlisted and not removable, it keeps receiving every event.
-	openUpdateOntoExistingID = true
+	openUpdateOntoExistingID = false // repaired in /repo by a fix: commit
 	sigOrphanAfterUpdate     = "service/orphan-handler-after-update-onto-existing-id"
 	// DeregisterHandlerSpec/UpdateHandlerSpec/CloseTopic/DeleteTopic/Close hold Service.mu, and Topics.DeregisterHandler/
 	// ReplaceHandler/Close hold Topics.mu, while they wait for the handler's goroutine to drain its queue; a publish (or
